@@ -119,10 +119,10 @@ def crash_site(stderr_json):
         m = re.search(r'ERROR: AddressSanitizer: ([A-Za-z0-9_-]+)', txt)
         if m:
             what = m.group(1)
-    for m in re.finditer(r'#\d+ 0x[0-9a-f]+ in (\S+) (\S+?/lib/[^/\s:]+):(\d+)', txt):
+    for m in re.finditer(r'#\d+ 0x[0-9a-f]+ in (\S+) (\S+?/lib/[^/\s:]+)(?::(\d+))?', txt):
         if '/harness/' in m.group(2):
             continue
-        return '%s:%s:%s:%s' % (os.path.basename(m.group(2)), m.group(3), m.group(1), what)
+        return '%s:%s:%s:%s' % (os.path.basename(m.group(2)), m.group(3) or '?', m.group(1), what)
     m = re.search(r'#\d+ 0x[0-9a-f]+ in (\S+)', txt)
     return '%s:%s' % (m.group(1) if m else 'unknown', what)
 
